@@ -156,7 +156,10 @@ static size_t sym_pos(uint64_t sym, uint64_t raw, size_t size, size_t limit, int
 static size_t sym_cnt(uint64_t sym, uint64_t raw, size_t size, size_t pos, int huge_ok, const char **ctx)
 {
     size_t rem = pos <= size ? size - pos : 0;
-    switch (sym % (huge_ok ? 12 : 6)) {
+    switch (sym % (huge_ok ? 15 : 6)) {
+    case 12: *ctx = "count-2^32"; return (size_t)(((uint64_t)1 << 32) / (g_wide ? sizeof(wchar_t) : 1)) + (size_t)(raw % 3);
+    case 13: *ctx = "count-2^31"; return (size_t)(((uint64_t)1 << 31) / (g_wide ? sizeof(wchar_t) : 1)) + (size_t)(raw % 3);
+    case 14: *ctx = "count-2^33"; return (size_t)((uint64_t)1 << 33) + (size_t)(raw % 3);
     case 0: return 0;
     case 1: return 1;
     case 2: return rem;
@@ -255,7 +258,7 @@ static void s_once(const plan_t *p)
                 break;
             case S_INSERT_STR_N: case S_APPEND_STR_N:
                 mktext(o->a[3], 1);
-                cnt = provoke == 2 ? sym_cnt(6 + o->a[4] % 6, o->a[5], size, pos, 1, &ctx) : (size_t)(o->a[4] % (tlen + 1));
+                cnt = provoke == 2 ? sym_cnt(6 + o->a[4] % 9, o->a[5], size, pos, 1, &ctx) : (size_t)(o->a[4] % (tlen + 1));
                 if (cnt > tlen && cnt <= MAXS) cnt = tlen;    /* a wrapped symbol can come out small: stay inside the text */
                 if (cnt > tlen) huge = 1; else { for (j = 0; j < cnt; j++) src[j] = twbuf[j]; srcn = cnt; }
                 break;
@@ -335,7 +338,7 @@ static void s_once(const plan_t *p)
 
         case S_RESIZE: {
             size_t n;
-            if (provoke == 2) { n = sym_cnt(6 + o->a[4] % 6, o->a[5], 0, 0, 1, &ctx); }
+            if (provoke == 2) { n = sym_cnt(6 + o->a[4] % 9, o->a[5], 0, 0, 1, &ctx); }
             else n = (size_t)(o->a[2] % (maxlen + 1));
             if (o->a[1] % 4 == 0 && provoke != 2) n = size ? size - 1 : 0;
             g_cur_ctx = ctx;
@@ -354,7 +357,7 @@ static void s_once(const plan_t *p)
             break;
         }
         case S_RESERVE: {
-            size_t n = provoke || (o->a[1] % 4 == 0) ? sym_cnt(6 + o->a[4] % 6, o->a[5], 0, 0, 1, &ctx) : (size_t)(o->a[2] % (2 * maxlen));
+            size_t n = provoke || (o->a[1] % 4 == 0) ? sym_cnt(6 + o->a[4] % 9, o->a[5], 0, 0, 1, &ctx) : (size_t)(o->a[2] % (2 * maxlen));
             if (o->a[1] % 8 == 1) { n = (size_t)(budget / CS(w)) + (size_t)(o->a[2] % 3) - 1; ctx = "count-near-budget"; }
             g_cur_ctx = ctx;
             if (w) TRY(cstl_wstring_reserve(&ws[d], n)); else TRY(cstl_string_reserve(&ns[d], n));
